@@ -96,6 +96,8 @@ func c07Shapes() []c07Shape {
 	add("upper-case-name", "F1", []interface{}{3}, h0, 3, intT)
 	add("mixed-case-name", "mixedcase", []interface{}{"x"}, h0, "x", strT)
 	add("non-ascii-name", "привет", []interface{}{"мир"}, h1, "мир", strT)
+	add("non-ascii-name-upper", "ПРИВЕТ", []interface{}{"мир"}, h0, "мир", strT)
+	add("non-ascii-name-title", "Привет", []interface{}{"мир"}, h1, "мир", strT)
 	add("several-results", "f1", []interface{}{1}, h0, []interface{}{1, "two", 3.5}, intT, strT, reflect.TypeOf(0.0))
 	add("several-results-shared", "f1", []interface{}{1}, h2, []interface{}{"shared", "shared", p, p}, strT, strT, pplainT, pplainT)
 	add("several-results-fewer", "f1", []interface{}{1}, h0, []interface{}{1}, intT, strT)
